@@ -135,6 +135,17 @@ func GenCase(r *rand.Rand, seed int64, kind string) Case {
 		cs.Out.FlushMs = 20
 		cs.EventTimeoutMs = pickInt(r, 100, 300)
 	}
+	// a batch that can never fill (capacity < batch count) is flushed by the
+	// timer only: keep such runs short
+	if cs.Capacity < cs.Out.Count || (cs.Out.Bytes > 0 && cs.Capacity < 4) || (cs.DLQ != nil && cs.Capacity < cs.DLQ.Count) {
+		cs.Out.FlushMs = 20
+		if cs.DLQ != nil {
+			cs.DLQ.FlushMs = 20
+		}
+		if cs.PerSource > 40 {
+			cs.PerSource = 20 + r.Intn(20)
+		}
+	}
 	holds := cs.OpWeights["hold"] > 0 || cs.OpWeights["collapse"] > 0 || cs.JoinPct > 0
 	if holds && cs.EventTimeoutMs > 300 {
 		// a held event at the end of a stream is only released by the stream
@@ -171,11 +182,15 @@ func init() {
 		var out childOut
 		for _, cs := range in.Cases {
 			io.Log(cs)
-			out.Results = append(out.Results, RunCase(cs))
+			out.Results = append(out.Results, RunCase(cs, func(v any) { io.Log(v) }))
 		}
 		return out, nil
 	})
 }
+
+// Races, when set, receives the race-detector reports of a child together
+// with the cases that child ran.
+var Races func(cases []Case, reports []string)
 
 // RunAll runs the cases in child processes (grouped by GOMAXPROCS) and calls
 // handle for every result; crash is called for a child that died, with the
@@ -215,9 +230,8 @@ func RunAll(c *core.Ctx, cases []Case, perChild, workers int, handle func(Result
 			for _, x := range out.Results {
 				handle(x)
 			}
-			for _, rr := range r.RaceReports {
-				c.Count("race_reports", 1)
-				c.Extra("race_sample", core.Trunc(rr, 3000))
+			if len(r.RaceReports) > 0 && Races != nil {
+				Races(g.cases, r.RaceReports)
 			}
 			return
 		}
@@ -229,6 +243,45 @@ func RunAll(c *core.Ctx, cases []Case, perChild, workers int, handle func(Result
 		if l := r.LastLog(); l != nil {
 			_ = json.Unmarshal(l, &last)
 		}
+		started := len(r.Log)
+		// re-run the crashing case alone with tracing to capture the history before the crash
+		if last.Name != "" {
+			tr := last
+			tr.Trace = true
+			for k := 0; k < 3; k++ {
+				mu.Unlock()
+				r3 := core.RunChild("pipemon", childIn{[]Case{tr}}, core.ChildOpt{Timeout: 12 * time.Minute, GOMAXPROCS: g.procs})
+				mu.Lock()
+				if r3.Crashed() {
+					n := len(r3.Log)
+					from := n - 250
+					if from < 1 {
+						from = 1
+					}
+					r.Log = append(r.Log[:0:0], r3.Log[from:]...)
+					r.Stderr = r3.Stderr
+					break
+				}
+			}
+		}
 		crash(last, r)
+		// the cases after the one that crashed still have to run
+		var rest []Case
+		for k := started; k < len(g.cases); k++ {
+			rest = append(rest, g.cases[k])
+		}
+		if len(rest) > 0 && started > 0 {
+			mu.Unlock()
+			r2 := core.RunChild("pipemon", childIn{rest}, core.ChildOpt{Timeout: 12 * time.Minute, GOMAXPROCS: g.procs})
+			mu.Lock()
+			var out childOut
+			if r2.Completed && json.Unmarshal(r2.Out, &out) == nil {
+				for _, x := range out.Results {
+					handle(x)
+				}
+			} else {
+				c.Inconclusive("cases after a crashed case could not be completed")
+			}
+		}
 	})
 }
